@@ -129,13 +129,17 @@ def c15(shape, choices, max_concurrent=None, warm_rerun=False, all_complete=Fals
     return None
 
 
-def c16(shape, choices, k):
-    res, err, ev, stats = run_shape(shape, set(), choices, max_concurrent=k)
+SHAPES["nested"] = dict(nodes={}, make=lambda x, fails: D.Nested(x=x), outputs=lambda x: {})
+
+
+def c16(shape, choices, k, warm_rerun=False):
+    res, err, ev, stats = run_shape(shape, set(), choices, max_concurrent=k, warm_rerun=warm_rerun)
     T.reach()
     if isinstance(err, S.BudgetExceeded):
         return "%s k=%d schedule %s: no progress (%s)" % (shape, k, list(choices), err)
     if stats["max_inflight"] > k:
-        return "%s: max_concurrent=%d but %d jobs were in flight at once (schedule %s, events %s)" % (shape, k, stats["max_inflight"], list(choices), ev)
+        return "%s%s: max_concurrent=%d but %d jobs were in flight at once (schedule %s, events %s)" % (
+            shape, " (rerun on a warm cache)" if warm_rerun else "", k, stats["max_inflight"], list(choices), ev)
     if err is not None:
         return "%s k=%d: failed %r" % (shape, k, err)
     return None
